@@ -130,6 +130,8 @@ func (c *Check) RequireCall(fn *ssa.Function, rule, name, pattern string, target
 		}
 		if re.MatchString(c.p.CallStr(ci)) {
 			matched = append(matched, ci)
+		} else if c.p.helperAlwaysCalls(fn, ci, re) {
+			matched = append(matched, ci) // the call is made by a helper on each of its success paths
 		}
 	}
 	if target == nil {
@@ -512,4 +514,40 @@ func (c *Check) requireFactCtx(x fctx, rule, name, pattern string, target instrP
 		return true
 	}
 	return c.RequireFact(x.parent, rule, name, pattern, instrSet([]ssa.Instruction{x.call}), "call of "+FuncKey(x.fn)+" ("+targetDesc+")")
+}
+
+
+// helperAlwaysCalls: ci calls a transparent repository helper in which — seen with its parameters bound to the
+// arguments of ci — every success exit is reached only after a call whose rendering matches re.
+func (p *Prog) helperAlwaysCalls(fn *ssa.Function, ci ssa.CallInstruction, re *regexp.Regexp) bool {
+	g := ci.Common().StaticCallee()
+	if g == nil || !p.transparentHelper(g) || g == fn {
+		return false
+	}
+	r := p.R(fn)
+	bind := make([]string, len(ci.Common().Args))
+	for i, a := range ci.Common().Args {
+		bind[i] = r.E(a)
+	}
+	gr := p.RBound(g, bind, 1)
+	var matched []ssa.Instruction
+	for _, gi := range callsIn(g) {
+		if _, isDefer := gi.(*ssa.Defer); isDefer {
+			continue
+		}
+		s := ""
+		if c, ok := gi.(*ssa.Call); ok {
+			s = gr.E(c)
+		} else {
+			s = gr.call(gi.Common())
+		}
+		if re.MatchString(s) {
+			matched = append(matched, gi)
+		}
+	}
+	if len(matched) == 0 {
+		return false
+	}
+	t, _ := (&PathSearch{Fn: g, AvoidInstr: instrSet(matched), IsTarget: successTargets(g)}).Find()
+	return t == nil
 }
